@@ -22,6 +22,8 @@
 (*               clean EOF for archive/tar; the restore reports success                        *)
 (*   "noTomb"    F19: readFileFromBackup skips everything that is not *.tsm                    *)
 (*   "skipCache" F20: Backup calls CreateSnapshot(skipCacheOk = true)                          *)
+(*   "snapFailOk" (not in the code as found; negative control): a cache snapshot that FAILS    *)
+(*               (snapshots disabled, file cannot be created) is tolerated like one in flight  *)
 EXTENDS Integers, Sequences, FiniteSets, TLC
 
 CONSTANTS NP,          \* points 1..NP (a point = one series at one timestamp)
@@ -34,6 +36,7 @@ CONSTANTS NP,          \* points 1..NP (a point = one series at one timestamp)
           Cuts,        \* subset of {"beforeFirst", "midFile", "boundary", "beforeTrailer"}
           Missing,     \* BOOLEAN: SrcMissing enabled
           Modes,       \* subset of {"restore", "import"}
+          SnapFails,   \* ways the backup's own cache snapshot can fail: subset of {"disabled", "io"}
           Dev
 
 Points == 1..NP
@@ -163,6 +166,21 @@ BackupBegin(sn) ==   \* DestPull reaches a source that holds the shard
   /\ pc' = "stream" /\ nrace' = 0
   /\ UNCHANGED <<snap, snapOn, hasShard, round, budget, chainOK, advOK, dstVars>>
 
+(* The cache snapshot the backup takes for itself fails for a reason other than "in progress":       *)
+(* "disabled" = Compactor.WriteSnapshot returns errSnapshotsDisabled (Shard.Free / SetCompactionsEnabled *)
+(* (false) until the next tick of Store.monitorShards), "io" = the snapshot file cannot be created.     *)
+(* CreateSnapshot returns the error, Backup writes nothing, the connection closes with zero bytes: the  *)
+(* copy is refused.  Tolerating the error ("snapFailOk") streams the files without the cache.           *)
+BackupBeginFail(kind) ==
+  /\ pc = "requested" /\ hasShard /\ ~snapOn /\ cache # EmptyC /\ round = 0 /\ MaxBackups = 1
+  /\ IF "snapFailOk" \in Dev
+        THEN /\ units' = UnitsOf(files, 1, 0) /\ wire' = "open" /\ pc' = "stream"
+             /\ taint' = taint \cup {"snapFailOk"}
+        ELSE /\ units' = <<>> /\ wire' = "cut" /\ pc' = "ended" /\ UNCHANGED taint
+  /\ since' = 0 /\ sent' = 0 /\ partial' = FALSE /\ lastBegin' = clock /\ nrace' = 0
+  /\ window' = {SrcContent}
+  /\ UNCHANGED <<srcVars, round, budget, chainOK, advOK, dstVars>>
+
 SrcMissing ==     \* Store.BackupShard: "shard doesn't exist on this server"; the handler returns, the connection closes
   /\ pc = "requested" /\ ~hasShard
   /\ units' = <<>> /\ sent' = 0 /\ partial' = FALSE /\ wire' = "cut" /\ since' = 0
@@ -257,6 +275,7 @@ Next ==
   \/ RequestCopy \/ SrcMissing \/ BackupStream \/ BackupEnd
   \/ \E sn \in {0, lastBegin} : (round = 0 => sn = 0) /\ BackupBegin(sn)
   \/ \E at \in Cuts : ConnCut(at)
+  \/ \E k \in SnapFails : BackupBeginFail(k)
   \/ DestCreateShard
   \/ \E m \in Modes : DestRestore(m)
   \/ MetaAddOwner \/ CopyFailed
@@ -294,6 +313,7 @@ Probe_OwnerAdded == "dst" \notin owners
 Probe_TombShipped == ~(pc = "stream" /\ \E i \in 1..Len(units) : units[i].k = "tomb")
 Probe_ChainRound2 == ~(round = 1 /\ pc = "restored" /\ resp = "ok" /\ chainOK /\ since > 0 /\ Len(units) > 0 /\ Len(dst) > Len(Rcvd))
 Probe_RaceWindow == Cardinality(window) < 2
+Probe_SnapFailRefused == ~(pc = "restored" /\ resp = "err" /\ wire = "cut" /\ units = <<>> /\ hasShard /\ cache # EmptyC)
 Probe_CutFailed == ~(pc = "restored" /\ resp = "err" /\ wire = "cut" /\ sent > 0)
 
 Bounded == Len(files) <= MaxFiles + 1
